@@ -88,6 +88,9 @@ type c10H struct {
 	// rollapp -> index of the sequencer actor that launched it (its dymint key is the next-validator set of the
 	// canonical client's consensus state; it posts the state updates)
 	seqOf map[int]int
+	// two-chain fixture (c10_coord_test.go): messages and packets go through real blocks of the coordinator's hub chain
+	deliverFn func(sdk.Msg) error
+	recvFn    func(channeltypes.Packet, clienttypes.Height) (ibcexported.Acknowledgement, string, error)
 }
 
 type c10Chan struct {
@@ -210,6 +213,9 @@ func (h *c10H) genesisInfo(g c10GI) *rollapptypes.GenesisInfo {
 
 // deliver = Fix.Deliver with the message's ValidateBasic inside the panic guard (baseapp recovers there too)
 func (h *c10H) deliver(msg sdk.Msg) (err error) {
+	if h.deliverFn != nil {
+		return h.deliverFn(msg)
+	}
 	defer func() {
 		if r := recover(); r != nil {
 			err = &PanicError{Val: r}
@@ -808,12 +814,15 @@ func (h *c10H) exec(line string) (res string, rc *c10Recv) {
 				closedBefore = ra.GenesisState.TransferProofHeight == 0
 			}
 		}
-		if !h.clientActive(c.id) {
+		recvFn := h.e.recvPacket
+		if h.recvFn != nil {
+			recvFn = h.recvFn // two-chain fixture: ibc core itself tests the client
+		} else if !h.clientActive(c.id) {
 			// ibc core's RecvPacket verifies the packet commitment first, and that starts with the status of the channel's
 			// client (03-connection VerifyPacketCommitment): under a client that is not active the message fails
 			return "err", rc
 		}
-		ack, et, err := h.e.recvPacket(pkt, clienttypes.NewHeight(1, atou(m["ph"])))
+		ack, et, err := recvFn(pkt, clienttypes.NewHeight(1, atou(m["ph"])))
 		if err == nil && ack != nil && ack.Success() && closedBefore {
 			h.nOpen[c.r]++
 		}
@@ -2090,6 +2099,10 @@ func (c *c10Gen) next(s *c10Snap, step int) string {
 }
 
 func c10RunTrace(t *testing.T, r *Run, lines []string, gen func(h *c10H, s *c10Snap, i int) string, nOps int) {
+	if len(lines) > 0 && c10IsCoordTrace(lines[0]) {
+		c10CoordRunTrace(t, r, lines) // two-chain fixture, see c10_coord_test.go
+		return
+	}
 	h := newC10H(t)
 	mon := &c10Mon{h: h, r: r}
 	hash := sha256.New()
@@ -2363,6 +2376,10 @@ func TestC10(t *testing.T) {
 	for _, lines := range c10Directed() {
 		r.Hit("directed/deferred-trading-trace")
 		c10RunTrace(t, r, lines, nil, 0)
+	}
+	for _, d := range c10CoordDirected() {
+		r.Hit("directed/coord-trace/" + d.name) // the branches themselves are hit from the outcomes (c10CoordH.branch)
+		c10RunTrace(t, r, d.lines, nil, 0)
 	}
 	nTraces, nOps := r.N(220, 4000), r.N(45, 60)
 	for tr := 0; tr < nTraces; tr++ {
